@@ -7,6 +7,7 @@ V = os.path.dirname(os.path.dirname(os.path.abspath(__file__)))
 sys.path.insert(0, os.path.join(V, "rules"))
 import facts as F, core as C
 
+NOT_ANCHORS = {"txtpp::fs::path::abs_path::create_file"}
 fx = F.extract("/repo", "default")
 names, params = set(), {}
 for k in ("lib", "bin"):
@@ -14,6 +15,8 @@ for k in ("lib", "bin"):
     for b in p.bodies.values():
         if b.kind == "Closure":
             continue
+        if b.name in NOT_ANCHORS:
+            continue      # always spliced into its caller: the rules are written against the caller
         names.add(b.name)
         params[b.name] = [[b.locals[l].get("name"), b.locals[l]["ty"]] for l in range(1, b.arg_count + 1)]
 if "--functions" in sys.argv:
